@@ -2,6 +2,7 @@ import WebpVerif.Spec.Prefix
 import WebpVerif.Spec.Lossless
 import WebpVerif.Spec.CodeLengths
 import WebpVerif.Model.Huffman
+import WebpVerif.Model.CodeRead
 import WebpVerif.Model.Util
 namespace DrvHuf
 open Util Prefix
@@ -74,6 +75,25 @@ def handle (args : List String) : Option String :=
     let sa := match a with | none => "none" | some (c, bb) => s!"{joinNats c.toList} used={bb.pos}"
     let sb := match b with | none => "none" | some (c, rest) => s!"{joinNats c} used={8 * bytes.size - rest.length}"
     some (if sa == sb then "agree " ++ sa else "DIFFER spec=" ++ sa ++ " twin=" ++ sb)
+  | ["coderead", alphabet, n, hex] => do
+    -- `read_huffman_code(alphabet)` then `n` symbol reads from the same position:
+    -- `<specification (ReadCode + canonical decoder)> ;; <model of the crate's code reader + HuffmanTree>`
+    let alphabet ← alphabet.toNat?; let n ← n.toNat?
+    let bytes ← if hex == "-" then some #[] else parseHex hex
+    let bits := bitsOf bytes
+    let spec := match readCodeL alphabet bits with
+      | none => "err"
+      | some (ls, rest) =>
+        let single := (ls.filter (· ≠ 0)).length = 1
+        let (syms, ok) := decodeMany ls ls.toArray (codeTable ls) single (ls.findIdx (· ≠ 0)) n rest []
+        s!"ok single={if single then 1 else 0} syms={joinNats syms} end={if ok then "ok" else "err"}"
+    let model := match CodeRead.readCode alphabet bits with
+      | none => "err"
+      | some (t, rest) =>
+        let single := match t with | .single _ => true | _ => false
+        let (syms, ok) := decodeManyModel t n rest []
+        s!"ok single={if single then 1 else 0} syms={joinNats syms} end={if ok then "ok" else "err"}"
+    some (spec ++ " ;; " ++ model)
   | _ => none
 
 end DrvHuf
